@@ -16,13 +16,20 @@ theorem mTerm_of_not_flagged (pc : MPc) (h : mFlagged pc = false) : mTerm pc = f
 @[simp] theorem mTerm_mRespawnCheck (s : St) : mTerm (mRespawnCheck s).mpc = false := mTerm_of_not_flagged _ (by simp)
 @[simp] theorem mTerm_mProcess (s : St) (r) : mTerm (mProcess s r).mpc = false := mTerm_of_not_flagged _ (by simp)
 
+/-- the pass made after flagging goes on to `join_executor_internals` only when it has emptied the table -/
+theorem term_mAddF (X : St) (h : mTerm (mAddF X).mpc = true) : (mAddF X).pending = [] := by
+  rcases mAddF_mpc X with ⟨i, _, e⟩ | ⟨_, e, _⟩ | ⟨_, _, hp⟩
+  · rw [e] at h; simp [mTerm] at h
+  · rw [e] at h; simp [mTerm] at h
+  · exact hp
+
 theorem term_mAfterFlag (X : St) (h : mTerm (mAfterFlag X).mpc = true) : (mAfterFlag X).pending = [] := by
   unfold mAfterFlag at h ⊢
   split
   · simp
   · split
     · simpa using ‹X.pending = []›
-    · rename_i h1 h2; simp [h1, h2] at h
+    · rename_i h1 h2; simp only [h1, h2, if_false, Bool.false_eq_true] at h; exact term_mAddF X h
 
 theorem termInv_init (cfg : Cfg) : TermInv (init cfg) := by simp [TermInv, init, mTerm]
 
@@ -35,6 +42,7 @@ theorem termInv_stepM (s s' : St) (v : Variant) (h : TermInv s) (hs : stepM s v 
     | (intro hl; simp at hl; done)
     | (intro hl; simp [mTerm] at hl; done)
     | (exact term_mAfterFlag _)
+    | (exact term_mAddF _)
     | (intro hl; simp_all [mTerm]; done)
     | (intro _; simp; done)
     | skip)
